@@ -12,6 +12,10 @@ from .container import operator_options
 TAU = F(1, 10 ** 6)      # GB: admission / capacity band for pools up to 10^6 GB
 
 
+def _dyadic(x):
+    return x >= 0 and x < 2 ** 30 and (x * 2 ** 20).denominator == 1
+
+
 def tau_for(cap_ram):
     """band within which float sums of the implementation may fall on either side of a limit: 1e-6 GB, or 1e-12 of the
     pool's capacity for very large pools (one ulp of 2e9 GB is already 2.4e-7 GB)"""
@@ -61,6 +65,9 @@ class ModelPool:
         self.free_cpu = cpus
         self.free_ram = F(ram)
         self.tau = tau_for(ram)
+        # True as long as every usage this pool has ever seen is a given (not interpolated) multiple of 2**-20 GB below
+        # 2**30: then the implementation's float sums and differences are exact and usage == capacity is decided exactly
+        self.exact = _dyadic(F(ram))
         self.overcommit = overcommit
         self.multi = multi
         self.tps = tps
@@ -162,6 +169,8 @@ class ModelPool:
             if c.k == 0:
                 c.pipe.states[i] = "running"
             mem, computed = c.plans[c.cur][c.k]
+            if computed or not _dyadic(mem):
+                self.exact = False      # enters the implementation's running float total even if the container is killed at once
             over = T.exceeds(mem, c.ram, computed)
             if over is None:
                 over = c.cid in real_failed
@@ -193,7 +202,9 @@ class ModelPool:
         self.last_total_before_pool_kill = total
         victims = [c for c in alive if c.cid in real_failed]
         self.last_victims = [c.cid for c in victims]
-        self.last_crossing = total > self.cap_ram + self.tau
+        tau = F(0) if self.exact else self.tau
+        self.last_exact_fit = self.exact and total == self.cap_ram and len(alive) > 1
+        self.last_crossing = total > self.cap_ram + tau
         elig = [c for c in alive if c.usage > 0]
         by_usage = sorted(elig, key=lambda c: (-c.usage, c.cid))
         by_score = sorted(elig, key=lambda c: (-(c.usage * c.usage / c.ram), c.cid))
@@ -201,12 +212,12 @@ class ModelPool:
         self.last_order_differs = [c.cid for c in by_usage] != [c.cid for c in by_score]
         self.last_tie = len({c.usage * c.usage / c.ram for c in elig}) < len(elig)
         if not victims:
-            if total > self.cap_ram + self.tau:
+            if total > self.cap_ram + tau:
                 problems.append(("C11:kill-missing", f"pool {self.pool_id}: usage {float(total)} GB > capacity {float(self.cap_ram)} GB and nothing killed"))
         else:
             def score(c):
                 return c.usage * c.usage / c.ram
-            if not total > self.cap_ram - self.tau:
+            if not total > self.cap_ram - tau:
                 problems.append(("C04:unjustified-kill", f"pool {self.pool_id}: containers {[c.cid for c in victims]} killed although every demand fits its allocation and pool usage {float(total)} <= capacity {float(self.cap_ram)}"))
             for v in victims:
                 if not v.usage > 0:
@@ -224,10 +235,10 @@ class ModelPool:
             tied_lowest = [v for v in victims if score(v) <= score(lowest) * (1 + F(1, 10 ** 9)) + F(1, 10 ** 12)]
             all_victims = sum((v.usage for v in victims), F(0))
             rest_before_last = max(total - (all_victims - v.usage) for v in tied_lowest)
-            if not rest_before_last > self.cap_ram - self.tau:
+            if not rest_before_last > self.cap_ram - tau:
                 problems.append(("C11:not-minimal", f"pool {self.pool_id}: killing {[v.cid for v in tied_lowest]} was not needed: usage without the other victims {float(rest_before_last)} <= capacity {float(self.cap_ram)}"))
             remaining = total - sum((v.usage for v in victims), F(0))
-            if remaining > self.cap_ram + self.tau:
+            if remaining > self.cap_ram + tau:
                 problems.append(("C11:insufficient", f"pool {self.pool_id}: usage after kills {float(remaining)} still above capacity {float(self.cap_ram)}"))
             for v in victims:
                 v.usage = F(0)
